@@ -306,8 +306,10 @@ def decide(prop, tier, only_unit=None, verbose=False):
         'wall_s': round(time.time() - t0, 2),
         'violations': violations,
     }
-    os.makedirs(EVIDENCE, exist_ok=True)
-    with open(os.path.join(EVIDENCE, f'{prop}.json'), 'w') as fh:
+    # a run restricted to one unit (--unit: development, self-tests) must not replace the property's evidence file
+    ev_dir = EVIDENCE if only_unit is None else os.path.join(common.WORK, 'evidence-unit')
+    os.makedirs(ev_dir, exist_ok=True)
+    with open(os.path.join(ev_dir, f'{prop}.json'), 'w') as fh:
         json.dump(ev, fh, indent=1)
 
     for l in lines:
